@@ -21,6 +21,9 @@ drivers (Packet.unpack_impl / pack_impl and the two generated-code templates):
      field that cannot be decoded fails inside its own unpack call (strict decode, C04);
  (g) a rejected Fragments.insert (colliding positions on pack) leaves the cursor where the
      failing field began (C11 clause 7).
+
+Round 4: (R7-one-entry-per-level) only the drivers create a PacketError; every append goes
+through the collision guards of insert.
 """
 import ast
 import re
